@@ -6,7 +6,7 @@ use crate::json::J;
 use crate::rng::Rng;
 use crate::run::{Obs, Prop, RunCfg, Verdict, Worker};
 
-const WS: &[&str] = &[" ", " ", " ", "\t", "\u{a0}", "\u{3000}", "  ", "    ", "\t\t", "\u{2003}", "\u{b}", "\u{c}", "\u{85}"];
+const WS: &[&str] = &[" ", " ", " ", "\t", "\u{a0}", "\u{3000}", "  ", "    ", "\t\t", "\u{2003}", "\u{b}", "\u{c}", "\u{85}", "\u{2002}", "\u{2009}", "\u{200a}", "\u{2000}", "\u{1680}", "\u{205f}", "\u{202f}", " \t", "\t "];
 const WORDS: &[&str] = &["foo", "bar baz", "x", "é", "你好", "- item", "a  b", "end \t", "#", "fn main() {", "}"];
 
 fn gen_ws(r: &mut Rng, max: usize) -> String {
@@ -183,7 +183,7 @@ fn extra(cfg: &RunCfg, w: &mut Worker) {
 pub fn prop() -> Prop {
     Prop {
         id: "C18",
-        rule: "cases = texts of 0..6 lines with a random whitespace margin (space, TAB, NBSP, U+3000, VT, FF, NEL, EM SPACE), whitespace-only lines of every shape (prefix of the margin, different whitespace, longer than the margin), lines with deviating indentation, LF / CRLF, with / without final newline, + exhaustive line shapes; dedent is compared with a reference model written from the statement, idempotence and dedent(indent(s,p)) == dedent(s) are checked on CR-free inputs; non-trivial = >= 2 lines and a non-empty margin was removed; distinct = (line bucket, removed-bytes bucket, whitespace-only lines, CR, final newline, TAB)",
+        rule: "cases = texts of 0..6 lines with a random whitespace margin (space, TAB, NBSP, U+3000, VT, FF, NEL, and the U+2000..U+200A / U+1680 / U+202F / U+205F spaces, several of which share leading UTF-8 bytes), whitespace-only lines of every shape (prefix of the margin, different whitespace, longer than the margin), lines with deviating indentation, LF / CRLF, with / without final newline, + exhaustive line shapes; dedent is compared with a reference model written from the statement, idempotence and dedent(indent(s,p)) == dedent(s) are checked on CR-free inputs; non-trivial = >= 2 lines and a non-empty margin was removed; distinct = (line bucket, removed-bytes bucket, whitespace-only lines, CR, final newline, TAB)",
         gen,
         check,
         panic_is_violation: false,
